@@ -231,6 +231,19 @@ class Ctx:
         except CaseTimeout:
             self.skip(api, "watchdog")
 
+    def merge(self, res):
+        """Fold the result dict of another recorder (e.g. the pytest plugin run) into this one."""
+        for k, v in res.get("api", {}).items():
+            self.api[k].update(v)
+        self.shape.update(res.get("shape", {}))
+        self.inconclusive.update(res.get("inconclusive", {}))
+        self.events.update(res.get("events", {}))
+        for fp, nt in res.get("fps", {}).items():
+            self.fps[fp] = self.fps.get(fp, False) or nt
+        self.witnesses.extend(res.get("witnesses", [])[: MAX_WITNESSES])
+        self.n_viol += res.get("n_viol", 0)
+        self.viol_mech.update(res.get("viol_mech", {}))
+
     # -- result ----------------------------------------------------------
     def result(self):
         return {
